@@ -250,7 +250,7 @@ impl Ctx {
     /// enumerate a dimension themselves and use proptest for the remaining context).
     pub fn draw<S: Strategy>(&mut self, n: usize, strategy: S) -> Vec<S::Value> {
         let seed = self.next_seed();
-        let cfg = Config { failure_persistence: None, rng_algorithm: RngAlgorithm::ChaCha, ..Config::default() };
+        let cfg = Config { failure_persistence: None, rng_algorithm: RngAlgorithm::ChaCha, max_local_rejects: u32::MAX, max_global_rejects: u32::MAX, ..Config::default() };
         let rng = proptest::test_runner::TestRng::from_seed(RngAlgorithm::ChaCha, &seed);
         let mut runner = TestRunner::new_with_rng(cfg, rng);
         let mut out = Vec::with_capacity(n);
@@ -275,7 +275,9 @@ impl Ctx {
             return None;
         }
         let seed = self.next_seed();
-        let cfg = Config { cases: share, failure_persistence: None, max_shrink_iters: 4000, rng_algorithm: RngAlgorithm::ChaCha, ..Config::default() };
+        // filters in the generators reject a small fraction of draws; over millions of cases the default cumulative limit
+        // (65 536 local rejects) would be reached, so the limits are lifted
+        let cfg = Config { cases: share, failure_persistence: None, max_shrink_iters: 4000, rng_algorithm: RngAlgorithm::ChaCha, max_local_rejects: u32::MAX, max_global_rejects: u32::MAX, ..Config::default() };
         let rng = proptest::test_runner::TestRng::from_seed(RngAlgorithm::ChaCha, &seed);
         let mut runner = TestRunner::new_with_rng(cfg, rng);
         // manual loop: we need `self` inside the closure and want to stop counting when shrinking starts
